@@ -4,6 +4,18 @@ use crate::env;
 
 pub mod util;
 
+crate::pooled!(Frame, POOL_FRAME);
+crate::pooled!(GCTask, POOL_GC);
+
+/// native runs share statics across scenarios
+pub fn reset_pools() {
+    use env::pool::Pooled;
+    Frame::pool().reset();
+    GCTask::pool().reset();
+    <()>::pool().reset();
+    <(Option<Scru128Id>, usize)>::pool().reset();
+}
+
 impl env::tokio::sync::broadcast::BroadcastId for Frame {
     fn bid(&self) -> u128 {
         self.id.to_u128()
@@ -11,6 +23,7 @@ impl env::tokio::sync::broadcast::BroadcastId for Frame {
 }
 
 pub mod k_keys;
-pub mod dbg;
 pub mod o_ops;
 pub mod k_ttl;
+pub mod p_read;
+pub mod p_writers;
